@@ -483,6 +483,104 @@ func reverseInts(a []int) []int {
 	return a
 }
 
+// asm14ReuseExec: one Assembler value used for several assemblies into the *same* root path (a long-lived daemon): what
+// an earlier assembly looked like must not influence the checks of a later one.
+func asm14ReuseExec(c *Ctx, op string) {
+	c.Begin(op)
+	caseCounter++
+	base := filepath.Join(c.Work, fmt.Sprintf("ru%d", caseCounter))
+	defer rmrf(base)
+	whDir := filepath.Join(base, "wh")
+	os.MkdirAll(whDir, 0755)
+	os.Setenv("RIO_CACHE", filepath.Join(base, "cache"))
+	os.Setenv("RIO_BASE", filepath.Join(base, "riobase"))
+	ctx := context.Background()
+	pf := api.MustParseFilesetPackFilter(losslessPackStr)
+	outside := filepath.Join(base, "outside")
+	os.MkdirAll(outside, 0755)
+	os.WriteFile(filepath.Join(outside, "sentinel"), []byte("s"), 0644)
+	outBefore, _ := Snapshot(outside)
+	d := func(n string) Entry { return Entry{Name: n, Kind: 'd', Perms: 0755, Uid: 7, Gid: 7, Sec: 1e9} }
+	fl := func(n, body string) Entry {
+		return Entry{Name: n, Kind: 'f', Perms: 0644, Uid: 7, Gid: 7, Sec: 1e9, Content: []byte(body)}
+	}
+	ln := func(n, t string) Entry { return Entry{Name: n, Kind: 'L', Perms: 0777, Uid: 7, Gid: 7, Sec: 1e9, Link: t} }
+	filesets := map[string]Fileset{
+		"real": {d(""), d("out"), fl("marker-real", "r")},          // `out` is a real directory
+		"link": {d(""), ln("out", outside), fl("marker-link", "l")}, // `out` is a symlink to the outside
+		"leaf": {d(""), fl("leaf", "x")},
+	}
+	ids := map[string]api.WareID{}
+	for k, v := range filesets {
+		src := filepath.Join(base, "src-"+k)
+		Materialize(v, src, nil)
+		ids[k], _ = tartrans.Pack(ctx, "tar", src, pf, whAddr("ca", whDir), rio.Monitor{})
+	}
+	asm, err := stitch.NewAssembler(tartrans.Unpack)
+	if err != nil {
+		c.EmitR(op, "skip", "skip")
+		return
+	}
+	root := filepath.Join(base, "root")
+	run := func(inputs map[string]string) string {
+		os.MkdirAll(root, 0755)
+		var specs []stitch.UnpackSpec
+		for p, w := range inputs {
+			specs = append(specs, stitch.UnpackSpec{Path: fs.MustAbsolutePath(p), WareID: ids[w], Filters: api.FilesetUnpackFilter_Lossless,
+				Warehouses: []api.WarehouseLocation{whAddr("ca", whDir)}})
+		}
+		var cleanup func() error
+		var rerr error
+		pan := ""
+		func() {
+			defer func() {
+				if r := recover(); r != nil {
+					pan = fmt.Sprint(r)
+				}
+			}()
+			cleanup, rerr = asm.Run(ctx, osfs.New(fs.MustAbsolutePath(root)), specs, fs.Metadata{Type: fs.Type_Dir, Perms: 0711, Uid: 42, Gid: 43, Mtime: time.Unix(777, 0)})
+		}()
+		if cleanup != nil {
+			cleanup()
+		}
+		unmountAllUnder(root)
+		rmrf(root)
+		switch {
+		case pan != "":
+			return "panic:" + pan
+		case rerr != nil:
+			return "err " + catOf(rerr)
+		}
+		return "ok"
+	}
+	f := strings.Fields(op)
+	switch f[2] {
+	case "real-then-link":
+		r1 := run(map[string]string{"/": "real", "/out/x": "leaf"})
+		r2 := run(map[string]string{"/": "link", "/out/x": "leaf"})
+		if r1 != "ok" {
+			c.PropFail("asm-refused-valid", "a valid assembly was refused: "+r1, op)
+		}
+		if r2 == "ok" {
+			c.PropFail("asm-accepted-invalid", "after an earlier assembly by the same Assembler in which /out was a real directory, an input crossing the symlink /out was accepted", op)
+		} else if r2 != "err rio-assembly-invalid" {
+			c.PropFail("asm-wrong-error", "an invalid assembly failed with "+r2, op)
+		}
+	case "filler-twice":
+		r1 := run(map[string]string{"/a/b/c": "leaf"})
+		r2 := run(map[string]string{"/a/b/c": "leaf"})
+		if r1 != "ok" || r2 != "ok" {
+			c.PropFail("asm-refused-valid", fmt.Sprintf("the same valid assembly run twice by one Assembler into a wiped root: %s then %s", r1, r2), op)
+		}
+	}
+	if ob, _ := Snapshot(outside); ob.Digest(true) != outBefore.Digest(true) {
+		c.PropFail("asm-escape", "an assembly created or changed something outside its root", op)
+	}
+	c.H("reuse:" + f[2])
+	c.EmitR(op, "skip", "skip")
+	c.Distinct(op)
+}
+
 func asm14Engine(c *Ctx) {
 	if ls := replayLines(); ls != nil {
 		for _, op := range ls {
@@ -490,6 +588,8 @@ func asm14Engine(c *Ctx) {
 				asm14PlanExec(c, op)
 			} else if strings.HasPrefix(op, "asm14 real ") {
 				asm14RealExec(c, op)
+			} else if strings.HasPrefix(op, "asm14 reuse ") {
+				asm14ReuseExec(c, op)
 			}
 		}
 		return
@@ -549,6 +649,8 @@ func asm14Engine(c *Ctx) {
 		}
 		asm14RealExec(c, fmt.Sprintf("asm14 real 0 %s 0", strings.Join(toks, ",")))
 	}
+	asm14ReuseExec(c, "asm14 reuse real-then-link")
+	asm14ReuseExec(c, "asm14 reuse filler-twice")
 	kinds := []string{"w0", "w1", "w2", "w3", "w0", "w1", "ro", "rw"}
 	rpool := []string{"/", "/a", "/ab", "/a/b", "/d", "/d/x", "/lnk/x", "/abs/y", "/up/z", "/lnk", "/abs", "/up", "/sub/deeper/q", "/a/lnk/k", "/pre/existing/n", "/data", "/data-extra", "/data/sub"}
 	for k := 0; k < nReal; k++ {
@@ -583,4 +685,97 @@ func unmount(p string) {
 			return
 		}
 	}
+}
+
+func init() { engines["asmbusy"] = asmBusyEngine }
+
+// asmbusy (C15): real placers and a really failing unmount.  An assembly of a plain-file ware (placed by the copy
+// placer), a directory ware and a writable host mount; a file inside the mount is held open, so its unmount fails with
+// EBUSY.  Teardown runs newest first: after that failure nothing may be deleted any more — the copied file must still be there,
+// the older mount must still have been unmounted, the failure must be reported.
+func asmBusyExec(c *Ctx, op string) {
+	c.Begin(op)
+	caseCounter++
+	base := filepath.Join(c.Work, fmt.Sprintf("bz%d", caseCounter))
+	defer rmrf(base)
+	whDir := filepath.Join(base, "wh")
+	os.MkdirAll(whDir, 0755)
+	os.Setenv("RIO_CACHE", filepath.Join(base, "cache"))
+	os.Setenv("RIO_BASE", filepath.Join(base, "riobase"))
+	ctx := context.Background()
+	pf := api.MustParseFilesetPackFilter(losslessPackStr)
+	// a ware whose root is one plain file, and a directory ware
+	os.MkdirAll(filepath.Join(base, "srcf"), 0755)
+	os.WriteFile(filepath.Join(base, "srcf", "thefile"), []byte("plain file ware"), 0644)
+	fileWare, e1 := tartrans.Pack(ctx, "tar", filepath.Join(base, "srcf", "thefile"), pf, whAddr("ca", whDir), rio.Monitor{})
+	os.MkdirAll(filepath.Join(base, "srcd", "sub"), 0755)
+	os.WriteFile(filepath.Join(base, "srcd", "sub", "inner"), []byte("dir ware"), 0644)
+	dirWare, e2 := tartrans.Pack(ctx, "tar", filepath.Join(base, "srcd"), pf, whAddr("ca", whDir), rio.Monitor{})
+	if e1 != nil || e2 != nil {
+		c.EmitR(op, "skip", "skip")
+		return
+	}
+	host := filepath.Join(base, "host")
+	os.MkdirAll(host, 0755)
+	os.WriteFile(filepath.Join(host, "precious"), []byte("host data"), 0644)
+	asm, err := stitch.NewAssembler(tartrans.Unpack)
+	if err != nil {
+		c.EmitR(op, "skip", "skip")
+		return
+	}
+	root := filepath.Join(base, "root")
+	os.MkdirAll(root, 0755)
+	wh := []api.WarehouseLocation{whAddr("ca", whDir)}
+	// paths sort: /a (file ware, oldest), /b (dir ware), /z (mount, newest: torn down first)
+	specs := []stitch.UnpackSpec{
+		{Path: fs.MustAbsolutePath("/a/f"), WareID: fileWare, Filters: api.FilesetUnpackFilter_Lossless, Warehouses: wh},
+		{Path: fs.MustAbsolutePath("/b"), WareID: dirWare, Filters: api.FilesetUnpackFilter_Lossless, Warehouses: wh},
+		{Path: fs.MustAbsolutePath("/z"), WareID: api.WareID{Type: "mount", Hash: "rw:" + host}},
+	}
+	cleanup, rerr := asm.Run(ctx, osfs.New(fs.MustAbsolutePath(root)), specs, fs.Metadata{Type: fs.Type_Dir, Perms: 0755, Mtime: time.Unix(777, 0)})
+	if rerr != nil || cleanup == nil {
+		c.PropFail("asm-refused-valid", fmt.Sprintf("a valid assembly (file ware, dir ware, rw mount) was refused: %v", rerr), op)
+		unmountAllUnder(root)
+		c.EmitR(op, "skip", "skip")
+		return
+	}
+	busy, _ := os.Open(filepath.Join(root, "z", "precious"))
+	terr := cleanup()
+	_, fileErr := os.Lstat(filepath.Join(root, "a", "f"))
+	bMounted := mounted(filepath.Join(root, "b")) // the directory ware is placed by a mount: its unmount is an always-try step
+	stillMounted := mounted(filepath.Join(root, "z"))
+	if busy != nil {
+		busy.Close()
+	}
+	c.H(fmt.Sprintf("busy:mounted=%v", stillMounted))
+	if stillMounted {
+		// the unmount really failed: nothing may have been deleted after it, and the failure is what is reported
+		if terr == nil {
+			c.PropFail("teardown-error-lost", "an unmount failed during teardown but no error was reported", op)
+		}
+		if fileErr != nil {
+			c.PropFail("delete-after-failure", "a copied plain-file placement was deleted after an unmount had failed", op)
+		}
+		if bMounted {
+			c.PropFail("unmount-not-attempted", "after a failed unmount the unmount of an older mount placement was not attempted", op)
+		}
+	}
+	if b, e := os.ReadFile(filepath.Join(host, "precious")); e != nil || string(b) != "host data" {
+		c.PropFail("delete-after-failure", "host data behind a mount that failed to unmount was deleted or changed", op)
+	}
+	unmountAllUnder(root)
+	c.EmitR(op, "skip", "skip")
+	c.Distinct(op)
+}
+
+func asmBusyEngine(c *Ctx) {
+	if ls := replayLines(); ls != nil {
+		for _, op := range ls {
+			if strings.HasPrefix(op, "asmbusy ") {
+				asmBusyExec(c, op)
+			}
+		}
+		return
+	}
+	asmBusyExec(c, "asmbusy 1")
 }
